@@ -170,6 +170,42 @@ theorem frontend_sound_complete (conv : J → J) (fromString : Bool) (ty : Ty) (
   ⟨fun v h => accept_sound _ rfl ty _ v h,
    fun h => (accept_complete _ rfl ty _ h).imp fun _ hv => hv.1⟩
 
+/-! ### state shared between unmarshalers: `structRequiredCache` -/
+
+/-- `processNamedFieldWithoutValue`, struct case, with the answer `req` of `structValueRequired` -/
+def absentStructWith (c : Cfg) (req : Except Err Bool) (fs : Fields) : Except Err Val :=
+  match req with
+  | .error e => .error e
+  | .ok true => .error .notSet
+  | .ok false => (unmFields c fs []).map .struct
+
+/-- the model (and the repaired code) asks about the type *as its own tag key reads it* -/
+theorem absentRequired_struct (c : Cfg) (fs : Fields) :
+    absentRequired c (.struct fs) = absentStructWith c (structRequired fs) fs := by
+  unfold absentRequired absentStructWith
+  cases structRequired fs with
+  | error e => rfl
+  | ok b => cases b <;> rfl
+
+def cacheInnerJson : Fields := .cons "A".toList (some "a,optional".toList) (.prim (.int 64)) .nil
+/-- the same Go struct `struct{ A int `json:"a,optional" form:"a"` }` as the `form` unmarshaler reads it -/
+def cacheInnerForm : Fields := .cons "A".toList (some "a".toList) (.prim (.int 64)) .nil
+def cacheOuterJson : Ty := .struct (.cons "In".toList (some "in".toList) (.struct cacheInnerJson) .nil)
+
+/-- OPEN DEFECT found in round 4 (replayed on the real code): `structRequiredCache` is keyed by the reflect type alone, not by
+(tag key, type).  For `type Inner struct{ A int `json:"a,optional" form:"a"` }`, `type Outer struct{ In Inner `json:"in" form:"in"` }`:
+under `json` no field of Inner is required, `{}` meets every constraint and is accepted in a fresh process; once a `form`
+unmarshaler has asked about Inner (answer: required, `a` has no options there) the `json` unmarshaler is handed that
+answer and rejects `{}` with `"in" is not set` — acceptance depends on which unmarshaler saw the type first.
+Repaired by fixes/C08-struct-required-cache-per-tag-key.patch (cache key = tag key + type). -/
+theorem structRequiredCache_witness :
+    (match structRequired cacheInnerJson with | .ok false => true | _ => false) = true
+    ∧ (match structRequired cacheInnerForm with | .ok true => true | _ => false) = true
+    ∧ complete {} cacheOuterJson (.obj []) = true
+    ∧ (match unmarshal {} cacheOuterJson (.obj []) with | .ok _ => true | _ => false) = true
+    ∧ (match absentStructWith {} (structRequired cacheInnerForm) cacheInnerJson with | .error .notSet => true | _ => false) = true := by
+  refine ⟨?_, ?_, ?_, ?_, ?_⟩ <;> decide +kernel
+
 /-! ### core/mapping/valuer.go -/
 
 theorem hasKey_eq (k : Str) (o : Obj) : hasKey k o = (getKey k o).isSome := rfl
